@@ -15,6 +15,8 @@ from .c01 import h_asarray, h_create, h_table, replay_create   # noqa
 from .c03 import (h_iterappend, h_append, h_truncate, h_assign, h_seq, replay_generic, check_all,
                   dt_of, mk_input)   # noqa
 from .. import replay as rp
+from . import c09
+from .c09 import h_fail, replay_fail   # noqa
 
 PROPERTY = 'C02'
 ASSUMPTIONS = c01.ASSUMPTIONS
@@ -121,6 +123,12 @@ def obligations(tier):
             if o.name == 'S-iterappend' and tier != 'thorough':
                 o.splits = o.splits[1::2]
             obs.append(o)
+    for o in c09.obligations(tier):
+        ctxs = [sp for sp in o.splits if sp.get('ctx')]
+        if ctxs:
+            o.splits = ctxs
+            o.name = o.name + '-in-context'
+            obs.append(o)     # failed append inside an open_array() context: the directory must stay decodable
     T = 600 if tier == 'thorough' else 150
     obs.append(Ob('M-readme', 'h_meta_readme',
                   splits=[dict(op=op, numtype=nt, bo=bo, atom=at) for op in ('create', 'delete')
